@@ -167,11 +167,11 @@ Proof.
   intros n e He. unfold buf_of in He. cbn [w_buf] in He. rewrite lookup_empty in He. inversion He.
 Qed.
 
-Theorem dstep_refines c s o :
-  crel c s -> (dstep c o).2 = (sstep s o).2 /\ crel (dstep c o).1 (sstep s o).1.
+Lemma dstep0_refines c s o :
+  crel c s -> (dstep0 c o).2 = (sstep0 s o).2 /\ crel (dstep0 c o).1 (sstep0 s o).1.
 Proof.
   intros R. pose proof R as [Hch Hread Hown Hwr]. fold (writers_rel (cl_writers c) (sg_writers s)) in Hwr.
-  destruct o as [id gw keys auto|id f|id|id]; cbn [dstep sstep].
+  destruct o as [id gw keys auto|id f|id f keep ks|id|id]; cbn [dstep0 sstep0]; [| |split; [reflexivity|exact R]| |].
   - (* open *)
     destruct keys as [|k0 keys']; [split; [reflexivity|exact R]|].
     rewrite Hch. destruct (forallb _ (k0 :: keys')); cbn [fst snd]; [|split; [reflexivity|exact R]].
@@ -220,6 +220,10 @@ Proof.
     apply writers_rel_delete, Hwr.
 Qed.
 
+Theorem dstep_refines c s o :
+  crel c s -> (dstep c o).2 = (sstep s o).2 /\ crel (dstep c o).1 (sstep s o).1.
+Proof. intros R. unfold dstep, sstep. apply dstep0_refines, R. Qed.
+
 Fixpoint dresults (c : cluster) (ops : list dop) : list dres :=
   match ops with [] => [] | o :: r => (dstep c o).2 :: dresults (dstep c o).1 r end.
 Fixpoint sresults (s : single) (ops : list dop) : list dres :=
@@ -252,7 +256,7 @@ Qed.
 Lemma open_writer_unknown c id gw keys auto k :
   k ∈ keys -> ~ k ∈ cl_chans c -> dstep c (OpenW id gw keys auto) = (c, DMissing).
 Proof.
-  intros Hin Hnot. cbn [dstep]. destruct keys as [|k0 keys']; [inversion Hin|].
+  intros Hin Hnot. unfold dstep. cbn [eff_op dstep0]. destruct keys as [|k0 keys']; [inversion Hin|].
   destruct (forallb (fun k1 => memb k1 (cl_chans c)) (k0 :: keys')) eqn:E; [|reflexivity].
   exfalso. apply Hnot. rewrite forallb_forall in E. apply memb_true, E, elem_of_list_In, Hin.
 Qed.
